@@ -13,6 +13,39 @@ CHECKS = {
  "C09": ("p2v-inproc", "exhaustive operator x operand-kind table over boundary values against a reference table, plus proptest random operands and relational consistency laws",
          "Every binary/unary operator applied to every ordered pair of a 56-value boundary pool (all kinds) is executed through the real pipeline and compared with an independently written reference table; consistency laws between < > <= >= and == are checked on every numeric pair; proptest adds random 64-bit / random-bit-pattern operands.",
          "reference table transcribed from the property statement and docs/language/operators.md (DESIGN.md Appendix A); don't-care zones listed there are accepted either way", "DESIGN.md §4 C09, Appendix A"),
+ "C02": ("p2v-inproc", "proptest-driven type-directed program generator; differential against an independent reference interpreter (compile verdict, observation sequence, final value, runtime-error presence/class); fault injection for the must-reject clause",
+         "Generated programs (literals incl. boundaries, all operators, let/assignment, arrays, maps, indexing, if/match as values, bounded loops with labelled jumps, functions, closures with private state, recursion through helpers, pure builtins) are rendered to text and run through the real scanner+parser+compiler+VM; an independent reference interpreter written from the property statement gives the expected observations. Programs with exactly one injected fault must be rejected by the compiler.",
+         "trusts the reference interpreter (harness/src/hx/interp.rs, ops.rs, builtins_ref.rs); programs entering declared don't-care zones are executed for crashes only", "DESIGN.md §3.1, §4 C02"),
+ "C03": ("p2v-inproc", "bounded-exhaustive operator-pair / prefix / postfix / assignment trees plus proptest random trees; metamorphic oracle: minimally parenthesised text (documented table) vs fully parenthesised text",
+         "Every ordered pair of the 18 binary operators in both nesting positions, every prefix x binary and postfix combination and assignment chains are rendered with only the parentheses the documented precedence table requires and fully parenthesised; both texts must evaluate alike through the real pipeline. A case counts only if some wrong grouping would evaluate differently.",
+         "relation between two runs of p2sh (a defect changing both identically is invisible; C02/C09 cover the absolute side); table transcribed from docs/language/expression-precedence.md", "DESIGN.md §4 C03"),
+ "C04": ("p2v-inproc", "proptest scope-scenario generator (shadowing, sibling blocks, closures over block-locals/params/globals, calls after mutation); differential against an independent lexical resolver + reference interpreter",
+         "Scope scenarios re-declaring a,b,c at several depths with reads/writes before, inside and after every block, functions and closures written inside blocks and called later; the reference resolver decides undefined-name vs accepted and the reference interpreter predicts the observed values (globals by reference, locals captured by value at closure creation).",
+         "trusts the reference resolver/interpreter; `let x = <expr mentioning x>` and assignment to a function's own name inside its body are declared don't-care zones and not generated", "DESIGN.md §4 C04"),
+ "C05": ("p2v-inproc", "bounded-exhaustive match/if tables plus proptest loop nests with labelled jumps; reference interpreter oracle",
+         "Exhaustive scrutinee x pattern tables (ints 0..9 with every literal and range, chars, bytes, strings, booleans, cross-kind scrutinees), if/else-if chains over every truth assignment, every ordered pair of pattern kinds (reject iff mixed), and generated 1..3-deep loop nests with plain and labelled break/continue are compared with the reference interpreter.",
+         "a range pattern applied to a scrutinee of another kind is a don't-care zone", "DESIGN.md §4 C05"),
+ "C06": ("p2v-inproc", "exhaustive value-kind x truthiness-position table and all ordered pairs for && / || with side-effect probes; proptest nested logical trees; documented table as oracle",
+         "27 representative values in every truthiness position (!v, !!v, if, else-if, while, &&, ||) and all 27x27 pairs for && and || with a probe around the right operand are checked against the documented truthiness table; the result must be the operand value and the probe must fire exactly when stated.",
+         "filter-pattern position is exercised end to end under C20", "DESIGN.md §4 C06"),
+ "C07": ("p2v-inproc", "proptest statement sequences stepped REPL-style with the operand-stack height read through a hook after every top-level statement; 10^4-iteration loops must not overflow; named detector for the known finding",
+         "Generated statement sequences (if/match as operands, branches ending in nested blocks/lets/nothing, break/continue inside operand positions) are compiled and run one top-level statement at a time the way the REPL does; the VM's stack height must be 0 after each. Loops of 10^4 iterations around generated statements must not report a stack overflow and must agree with the reference.",
+         "needs hook VM::verif_sp; statement stepping replicates run_prompt via the public Compiler/VM API", "DESIGN.md §4 C07"),
+ "C10": ("p2v-inproc", "exhaustive key-pair table (against reference equality and, metamorphically, against the implementation's own ==) plus proptest insert/lookup histories against an association-list model",
+         "All ordered pairs of a 62-key pool (ints, integral/non-integral floats, signed zeros, NaN, bytes, chars, strings, booleans, null, builtins, nested arrays) are inserted under k1 and looked up with k2 through m[k], get, contains, insert and map literals; random histories of 1..40 operations are compared with an association list keyed by the reference equality.",
+         "keys whose equality the reference leaves open are checked only against the implementation's own ==", "DESIGN.md §4 C10"),
+ "C11": ("p2v-inproc", "exhaustive builtin x arity x argument-kind table against a contract table, effect programs against the reference interpreter, proptest round-trip laws",
+         "Each of the 23 pure builtins is called with every representative (80 values of 12 kinds) at arity 1, every ordered pair at arity 2 and one-per-kind triples at arity 3; the result must satisfy the documented contract or be a runtime error naming the builtin. Round-trip laws (int/str, float/str, UTF-8 encode/decode, chars/join, sort as ordered permutation) are checked on random values.",
+         "contract table transcribed from docs/language/builtins.md (DESIGN.md Appendix C) with its don't-care zones", "DESIGN.md §4 C11, Appendix C"),
+ "C12": ("p2v-inproc", "proptest grammar-based generator of format strings and argument lists; differential against a reference renderer; malformed specifiers for crash-freedom",
+         "Format strings generated from the specifier grammar (mixing indexed and positional specifiers, fills, widths, alignment, b/o/x/X) with random argument lists are rendered by format() in-process and compared with an independent reference renderer; malformed specifiers must not crash.",
+         "print/println/eprint/eprintln are covered end to end by the e2e checks; display of floats/chars/bytes/containers is a don't-care zone", "DESIGN.md §4 C12"),
+ "C13": ("p2v-inproc", "proptest generator placing one failing single-line construct at a known line after random filler (functions, filters, multi-line literals, CRLF); oracle: reported line == constructed line",
+         "Programs with 0..14 filler constructs followed by exactly one failing construct (66 kinds: division by zero, bad index/key, operand kinds, unary, non-function call, arity, every pure builtin, property access) at top level, in functions, closures, loops or nested expressions; the runtime error must carry the line the construct was written on.",
+         "only single-line constructs are generated (the property's proviso)", "DESIGN.md §4 C13"),
+ "C14": ("p2v-inproc", "exhaustive encode/decode round trip over every opcode and operand value; decoder walk of generated programs' bytecode; programs constructed at, below and above each encoding limit",
+         "All 17.4 million (opcode, operands) combinations round-trip through make/read_operands; generated programs' bytecode is walked with the decoder (valid opcodes, jump targets on instruction boundaries, constant indices in range); limit programs for constants, jump targets (8 constructs), locals, call arguments, captured variables and REPL-accumulated constants must be rejected above the limit and behave correctly at/below it.",
+         "global-index and array/map-literal limit programs take minutes to compile and run in the thorough tier only", "DESIGN.md §4 C14"),
 }
 
 NOT_APPLICABLE = {
